@@ -386,7 +386,9 @@ Definition term_matches (t : term) (o : oterm) : bool :=
   | _, _ => false
   end.
 
-Inductive mkind := KHier | KEdi.
+(* KHier: flatfile.NewHierarchyReader driven directly; KFlat: through csv2 / fixedlength2 (whose
+   validation makes the first declaration the target when none is marked); KEdi: the EDI reader *)
+Inductive mkind := KHier | KFlat | KEdi.
 
 Record hcase := mkHCase {
   hc_kind : mkind;
@@ -403,5 +405,9 @@ Definition run_fuel (ds : list decl) (us : list unt) : nat :=
 Definition run_kind (k : mkind) (ds : list decl) (us : list unt) : list inst * term :=
   match k with
   | KHier => run (hstep flat_leaf) (run_fuel ds us) (init ds us)
+  | KFlat => let ds := flat_default_target ds in run (hstep flat_leaf) (run_fuel ds us) (init ds us)
   | KEdi => run (edi_step edi_leaf) (run_fuel ds us) (init ds us)
   end.
+
+Definition valid_kind (k : mkind) (ds : list decl) : bool :=
+  match k with KHier => true | KFlat => flat_validb ds | KEdi => edi_validb ds end.
